@@ -107,13 +107,13 @@ package cdcn
 //@   props C12 C11
 //@   safe
 //@   requires pready(this)
-//@   modifies view(this.next_), view(this.tokens_)
+//@   modifies view(this.next_), view(this.tokens_), got(this.tokens_)
 //@   ensures[C12] result != nil && pready(this)
 //@ func (*parser_).parseToken
 //@   props C12 C11
 //@   safe
 //@   requires pready(this)
-//@   modifies view(this.next_), view(this.tokens_)
+//@   modifies view(this.next_), view(this.tokens_), got(this.tokens_)
 //@   ensures[C12] result.1 != nil && pready(this)
 //@   ensures[C12] result.2 ==> ttype(result.1) == expectedType && result.0 == tvalue(result.1)
 
@@ -124,7 +124,7 @@ package cdcn
 //@   props C12 C11
 //@   safe
 //@   requires pready(this)
-//@   modifies view(this.next_), view(this.tokens_)
+//@   modifies view(this.next_), view(this.tokens_), got(this.tokens_)
 //@   ensures[C12] result.1 != nil && pready(this)
 //@   ensures[C11] result.2 ==> ttype(result.1) == 1 || ttype(result.1) == 2 || ttype(result.1) == 6 || ttype(result.1) == 7 || ttype(result.1) == 8 || ttype(result.1) == 9 || ttype(result.1) == 10 || ttype(result.1) == 12
 //@   ensures[C11] result.2 && ttype(result.1) == 1 ==> pbool_ok(tvalue(result.1)) && result.0 == box(pbool_val(tvalue(result.1)))
@@ -139,25 +139,25 @@ package cdcn
 //@   props C12
 //@   safe
 //@   requires pready(this)
-//@   modifies view(this.next_), view(this.tokens_)
+//@   modifies view(this.next_), view(this.tokens_), got(this.tokens_)
 //@   ensures[C12] result.1 != nil && pready(this)
 //@ func (*parser_).parseContext
 //@   props C12
 //@   safe
 //@   requires pready(this)
-//@   modifies view(this.next_), view(this.tokens_)
+//@   modifies view(this.next_), view(this.tokens_), got(this.tokens_)
 //@   ensures[C12] result.1 != nil && pready(this)
 //@ func (*parser_).parseValue
 //@   props C12
 //@   safe
 //@   requires pready(this)
-//@   modifies view(this.next_), view(this.tokens_)
+//@   modifies view(this.next_), view(this.tokens_), got(this.tokens_)
 //@   ensures[C12] result.1 != nil && pready(this)
 //@ func (*parser_).parseCollection
 //@   props C12
 //@   safe
 //@   requires pready(this)
-//@   modifies view(this.next_), view(this.tokens_)
+//@   modifies view(this.next_), view(this.tokens_), got(this.tokens_)
 //@   ensures[C12] result.1 != nil && pready(this)
 //@   loop 1:
 //@     invariant pready(this) && token != nil && catalog != nil && fresh(catalog) && wellkeyed(view(catalog)) && allfresh(view(catalog)) && unchanged(aval) && rangeindex >= -1 && rangeindex < MAXLEN
@@ -169,14 +169,14 @@ package cdcn
 //@   props C12
 //@   safe
 //@   requires pready(this)
-//@   modifies view(this.next_), view(this.tokens_)
+//@   modifies view(this.next_), view(this.tokens_), got(this.tokens_)
 //@   ensures[C12] result.1 != nil && pready(this)
 //@   ensures[C12] result.2 ==> result.0 != nil
 //@ func (*parser_).parseItems
 //@   props C12
 //@   safe
 //@   requires pready(this)
-//@   modifies view(this.next_), view(this.tokens_)
+//@   modifies view(this.next_), view(this.tokens_), got(this.tokens_)
 //@   ensures[C12] result.1 != nil && pready(this)
 //@   ensures[C12] result.2 ==> result.0 != nil
 //@   loop 1:
@@ -186,14 +186,14 @@ package cdcn
 //@   props C12
 //@   safe
 //@   requires pready(this)
-//@   modifies view(this.next_), view(this.tokens_)
+//@   modifies view(this.next_), view(this.tokens_), got(this.tokens_)
 //@   ensures[C12] result.1 != nil && pready(this)
 //@   ensures[C12] result.2 ==> result.0 != nil
 //@ func (*parser_).parseInlineValues
 //@   props C12
 //@   safe
 //@   requires pready(this)
-//@   modifies view(this.next_), view(this.tokens_)
+//@   modifies view(this.next_), view(this.tokens_), got(this.tokens_)
 //@   ensures[C12] result.1 != nil && pready(this)
 //@   ensures[C12] result.2 ==> result.0 != nil
 //@   loop 1:
@@ -203,7 +203,7 @@ package cdcn
 //@   props C12
 //@   safe
 //@   requires pready(this)
-//@   modifies view(this.next_), view(this.tokens_)
+//@   modifies view(this.next_), view(this.tokens_), got(this.tokens_)
 //@   ensures[C12] result.1 != nil && pready(this)
 //@   ensures[C12] result.2 ==> result.0 != nil
 //@   loop 1:
@@ -213,21 +213,21 @@ package cdcn
 //@   props C12
 //@   safe
 //@   requires pready(this)
-//@   modifies view(this.next_), view(this.tokens_)
+//@   modifies view(this.next_), view(this.tokens_), got(this.tokens_)
 //@   ensures[C12] result.1 != nil && pready(this)
 //@   ensures[C12] result.2 ==> result.0 != nil
 //@ func (*parser_).parseAssociations
 //@   props C12
 //@   safe
 //@   requires pready(this)
-//@   modifies view(this.next_), view(this.tokens_)
+//@   modifies view(this.next_), view(this.tokens_), got(this.tokens_)
 //@   ensures[C12] result.1 != nil && pready(this)
 //@   ensures[C12] result.2 ==> result.0 != nil && nonnil(view(result.0))
 //@ func (*parser_).parseInlineAssociations
 //@   props C12
 //@   safe
 //@   requires pready(this)
-//@   modifies view(this.next_), view(this.tokens_)
+//@   modifies view(this.next_), view(this.tokens_), got(this.tokens_)
 //@   ensures[C12] result.1 != nil && pready(this)
 //@   ensures[C12] result.2 ==> result.0 != nil && nonnil(view(result.0))
 //@   loop 1:
@@ -237,7 +237,7 @@ package cdcn
 //@   props C12
 //@   safe
 //@   requires pready(this)
-//@   modifies view(this.next_), view(this.tokens_)
+//@   modifies view(this.next_), view(this.tokens_), got(this.tokens_)
 //@   ensures[C12] result.1 != nil && pready(this)
 //@   ensures[C12] result.2 ==> result.0 != nil && nonnil(view(result.0))
 //@   loop 1:
@@ -292,26 +292,26 @@ package cdcn
 //@ func (*scanner_).emitToken
 //@   props C12
 //@   safe
-//@   modifies view(this.tokens_)
+//@   modifies view(this.tokens_), put(this.tokens_)
 //@   hint before call3: token != nil
 //@ func (*scanner_).foundEOF
 //@   props C12
 //@   safe
-//@   modifies view(this.tokens_)
+//@   modifies view(this.tokens_), put(this.tokens_)
 //@ func (*scanner_).foundError
 //@   props C12
 //@   safe
 //@   requires this.next_ < len(this.runes_)
-//@   modifies this.next_, view(this.tokens_)
+//@   modifies this.next_, view(this.tokens_), put(this.tokens_)
 //@ func (*scanner_).foundToken
 //@   props C12
 //@   safe
-//@   modifies this.next_, this.first_, this.line_, this.position_, view(this.tokens_)
+//@   modifies this.next_, this.first_, this.line_, this.position_, view(this.tokens_), put(this.tokens_)
 //@   ensures[C12] this.runes_ == old(this.runes_) && (!result ==> this.next_ == old(this.next_)) && (result ==> this.next_ >= old(this.next_))
 //@ func (*scanner_).scanTokens
 //@   props C12
 //@   safe
-//@   modifies this.next_, this.first_, this.line_, this.position_, view(this.tokens_)
+//@   modifies this.next_, this.first_, this.line_, this.position_, view(this.tokens_), put(this.tokens_)
 //@   loop 1:
 //@     invariant inv(scanner_, this)
 //@     decreases *
